@@ -38,8 +38,8 @@ import asmcommon as ac  # noqa: E402
 import disgen  # noqa: E402
 
 ID = 'C08'
-LEAN_MODULES = ['Py65.Props.C08', disgen.GENEQ_MODULE, 'Py65.Props.C08g']
-NAMESPACES = ['Py65.Props.C08', 'Py65.Props.C08g', disgen.GENEQ_NAMESPACE]
+LEAN_MODULES = ['Py65.Props.C08', disgen.GENEQ_MODULE, 'Py65.Props.C08g'] + ac.ASM_GEN_MODULES + ['Py65.Props.C08ga']
+NAMESPACES = ['Py65.Props.C08', 'Py65.Props.C08g', disgen.GENEQ_NAMESPACE, 'Py65.Proofs.AsmGenEq', 'Py65.Props.C08ga']
 LEVEL = 'proof'
 USES_GEN = True
 EXPECTED_THEOREMS = ['Py65.Props.C08.roundtrip', 'Py65.Props.C08.roundtrip_exact', 'Py65.Props.C08.spec_decode_encode',
@@ -47,23 +47,33 @@ EXPECTED_THEOREMS = ['Py65.Props.C08.roundtrip', 'Py65.Props.C08.roundtrip_exact
                      'Py65.Props.C08.noLabels_good',
                      # the same for the GENERATED instruction_at (tie by regeneration, harness/py2lean_dis.py)
                      'Py65.Props.C08g.roundtrip', 'Py65.Props.C08g.roundtrip_exact', 'Py65.Props.C08g.roundtrip_past_top',
-                     ] + disgen.GENEQ_THEOREMS
-pre_build = disgen.pre_build
+                     ] + disgen.GENEQ_THEOREMS + ac.ASM_GEN_THEOREMS + [
+                     # ... and for the GENERATED assemble (harness/py2lean_asm.py)
+                     'Py65.Props.C08ga.roundtrip', 'Py65.Props.C08ga.roundtrip_exact', 'Py65.Props.C08ga.roundtrip_past_top']
+
+
+def pre_build(ctx):
+    disgen.pre_build(ctx)             # tie 1 (disassembler): regenerate lean/Py65/Gen/DisasmGen.lean
+    ac.pre_build_asm(ctx)             # tie 1 (assembler): regenerate lean/Py65/Gen/AsmGen.lean
+
+
 RULE = ('devices x opcode bytes 0..255 enumerated; operand cells and addresses from boundary classes then random; label '
         'tables of 0-6 identifier-like names aimed at operand / word / branch target / neighbours; branches: addresses x '
         'displacements (quick: 3000 x 16, thorough: all 65536 x 256 on the 8-bit devices).  distinct = distinct (device, '
         'pc, cells, labels); nontrivial = declared opcode (a text with a mnemonic is produced and re-assembled)')
-TRUSTED = [
+TRUSTED = ac.ASM_GEN_TRUSTED + [
     'disassembler side: ' + disgen.TRUSTED_TEXT,
     disgen.MODELLED_TEXT,
-    'assembler side: hand model Py65.Model.Asm (tied by C07 and here in composition with the real disassembler, by '
-    'sampled correspondence); Py65.Model.AddrParser for reading the operand back (C15); the hand model '
-    'Py65.Model.Disasm is still what the driver runs for the correspondence (it is proved equal to the generated '
-    'function)',
+    'assembler side: hand model Py65.Model.Asm (proved equal to the regenerated Py65.Gen.AsmGen, and tied by C07 and '
+    'here in composition with the real disassembler by sampled correspondence); Py65.Model.AddrParser for reading the '
+    'operand back (C15); the hand model Py65.Model.Disasm is still what the driver runs for the correspondence (it is '
+    'proved equal to the generated function)',
     'Spec.Asm (decode / encode on the documented tables of Spec/Isa.lean) and its Python transcription in '
     'harness/asmcommon.py',
 ]
 ASSUMPTIONS = [
+    'the assembler side of Props/C08g.lean is the function GENERATED from the current py65/assembler.py (library '
+    'behaviour modelled, see trusted_base); the disassembler side is the hand model',
     '"located at any address" is read as: the instruction lies inside the address space (pc + length <= 2^ADDR_WIDTH); '
     'C07 requires code running past the top of memory to be refused, and that is what is checked for straddling '
     'instructions (theorem roundtrip_past_top)',
